@@ -1,0 +1,18 @@
+//go:build verif
+
+package store
+
+// SetCRCBadHandlerVerif installs the handler invoked when the asynchronous
+// clean-snapshot CRC32 check finds a mismatch at start-up. Without a handler
+// the process removes the clean-snapshot marker and exits; a simulation
+// harness installs one so it can model that exit itself. Only compiled with
+// the "verif" build tag.
+func (s *Store) SetCRCBadHandlerVerif(f func(fpCRC32, actualCRC32 uint32)) {
+	s.crcBadHandler = f
+}
+
+// CleanSnapshotPathVerif returns the path of the clean-snapshot fingerprint
+// file. Only compiled with the "verif" build tag.
+func (s *Store) CleanSnapshotPathVerif() string {
+	return s.cleanSnapshotPath
+}
